@@ -1,5 +1,6 @@
 (* C04 — caches are transparent for every history of calls, failures and rebuilds. *)
 From Connectome Require Import Values Attrs VM Edges EdgesGen Store Evaluator L2 HashSound SpecEq EqFacts C01Inst C04Main Total RaiseDir C01Raise FailClean Examples.
+From Connectome Require NodeHashGen.
 From Connectome Require ColStore ColumnsGen Columns ColumnsFacts.
 Local Open Scope list_scope.
 
@@ -178,3 +179,12 @@ Example C04_example_columns :
   /\ List.length (ColStore.disk st) = 2.
 Proof. vm_compute. auto. Qed.
 Print Assumptions C04_example_columns.
+
+(* The node-hash values this file reasons about are the ones engine/node_hash.py builds (regenerated, Gen/NodeHashGen.v):
+   tags 0-3 for leaf / apply / graph / custom, the components of each `value` tuple in order, and == on `value`. *)
+Theorem C04_node_hash_values_are_translated :
+  NodeHashGen.hash_tags = [0; 1; 2; 3] /\ NodeHashGen.LeafHash_value = ["tag"; "data"]
+  /\ NodeHashGen.ApplyHash_value = ["tag"; "func"; "args.value"; "kw_names"] /\ NodeHashGen.GraphHash_value = ["tag"; "output.value"]
+  /\ NodeHashGen.CustomHash_value = ["tag"; "marker"; "*children.value"] /\ NodeHashGen.nodehash_eq_compares = "value".
+Proof. repeat split; reflexivity. Qed.
+Print Assumptions C04_node_hash_values_are_translated.
